@@ -7,6 +7,8 @@
    A peer presents one message built from the keys it knows.  `sk` is the server-level secret it
    used ("right", "wrong", "onebit" = differs in one bit, "none" = no key at all: random bytes or
    another protocol's valid handshake), `uk` the user-level secret ("A", "B", "X" = not registered,
+   "S" = the peer knows no user key at all and puts the server key in its place - a removed user, or
+   anyone the server key leaked to - with an identity header that names nobody,
    "-" = the configuration has no users), `form` how much of a well-formed message it is.
    The server decides (`Decide`), possibly emits a connect / relay item attributed to a user, and
    seals its answer under some key.
@@ -33,12 +35,13 @@ Registered == {"A", "B"}
    configurations; what a per-session cache would remember).                                                          *)
 Messages ==
   {[cfg |-> c, sk |-> s, uk |-> u, form |-> f, claim |-> cl, prior |-> pr] :
-      c \in Configs, s \in {"right", "wrong", "onebit", "none", "shape"}, u \in {"A", "B", "X", "-"}, f \in {"whole", "truncated"},
+      c \in Configs, s \in {"right", "wrong", "onebit", "none", "shape"}, u \in {"A", "B", "X", "S", "-"}, f \in {"whole", "truncated"},
       cl \in {"own", "other"}, pr \in BOOLEAN}
 
 Sensible(m) == /\ (HasUsers(m.cfg) <=> m.uk # "-")
                /\ (~HasServerKey(m.cfg) => m.sk \in {"right", "none"})      \* vmess: "right" = n/a, "none" = garbage
                /\ (m.sk \in {"none", "shape"} => m.uk \in {"-", "X"})
+               /\ (m.uk = "S" => (m.cfg \in {"ss-multi", "ss-udp-multi"} /\ m.sk = "right"))
                /\ (m.claim = "other" => (m.cfg \in {"ss-multi", "ss-udp-multi"} /\ m.uk \in Registered /\ m.sk = "right" /\ m.form = "whole"))
                /\ (m.prior => (m.cfg = "ss-udp-multi" /\ m.uk \in Registered /\ m.sk = "right" /\ m.form = "whole"))
 
